@@ -163,6 +163,9 @@ def chunks(stream, cuts):
             prev = c
 
 
+FOREIGN = []
+
+
 def run_one(version, flavour, policy, stream, cuts, proto_kind="base"):
     """Returns dict(state, sent, kinds, crashed)."""
     from mysensors.transport import AsyncMySensorsProtocol, BaseMySensorsProtocol
@@ -174,6 +177,12 @@ def run_one(version, flavour, policy, stream, cuts, proto_kind="base"):
     else:
         P = BaseMySensorsProtocol if flavour == "sync" else AsyncMySensorsProtocol
     proto = P(eng.gw, lambda: None)
+    stale = bytes(getattr(proto, "buffer", b"") or b"")
+    if stale:
+        # a protocol object that has never received anything already holds bytes (of another gateway's connection):
+        # recorded, and cleared for this run only so that one defect does not drown the job
+        FOREIGN.append((len(stale), stale[:60]))
+        proto.buffer = bytearray()
     if policy == "keepup":
         orig = proto.handle_line
 
@@ -331,6 +340,12 @@ def run(job):
             compare(res, a, b, "flavours-across-reconnect", {"version": version, "stream_hex": stream.hex(), "cuts": [c], "seg": "reconnect", "run": "reconnect"}, False)
             res.evals += 1
             res.count("reconnect_comparisons")
+        if FOREIGN:
+            n, head = FOREIGN[0]
+            res.violation("fresh-protocol-holds-bytes-of-an-earlier-connection",
+                          f"a newly created protocol object of a new gateway starts with {n} bytes in its receive buffer ({head!r}...): "
+                          f"what a gateway does depends on what other gateways of the process received", {"version": version, "stream_hex": stream.hex(), "cuts": [len(stream)], "seg": "whole", "run": "async"})
+            del FOREIGN[:]
         if sn == 0 and job["i"] == 0:
             res.sample({"version": version, "stream": stream.decode("utf-8", "replace")[:300], "segmentations": len(segs),
                         "kinds": sorted({s[0] for s in segs})})
